@@ -4,20 +4,6 @@
 J=${1:-6}
 V=$(cd "$(dirname "$0")/.." && pwd)
 export GOFLAGS=-mod=mod GOPROXY=off GOSUMDB=off GOTOOLCHAIN=local
-one() {
-  D=$1; N=$(basename $D); W=/root/scratch/rc-$N
-  rm -rf $W; git -C /repo worktree add -q --detach $W HEAD 2>/dev/null || { echo "$N: worktree failed"; return; }
-  pkg=$(head -3 $D/demo_test.go | grep -o 'place in: *[^ ]*' | sed 's/place in: *//'); [ -z "$pkg" ] && pkg=.; [ "$pkg" = "repo" ] && pkg=.
-  case "$pkg" in *root*) pkg=. ;; esac
-  cp $D/demo_test.go $W/$pkg/zz_demo_test.go
-  tests=$(grep -o '^func Test[A-Za-z0-9_]*' $W/$pkg/zz_demo_test.go | sed 's/func //' | paste -sd'|')
-  RACE=""; grep -q "go:build race" $W/$pkg/zz_demo_test.go && RACE=-race
-  if (cd $W && git apply $D/patch.diff 2>/dev/null); then
-    if (cd $W && go test $RACE -vet=off -count=1 -run "^($tests)\$" ./$pkg >/dev/null 2>&1); then echo "$N: demo PASSES with the change"; fi
-  else echo "$N: patch does not apply"; fi
-  git -C /repo worktree remove --force $W >/dev/null 2>&1
-}
-export -f one 2>/dev/null
 ls -d $V/seeded/*/ | xargs -P $J -I{} sh -c '
   D={}; D=${D%/}; N=$(basename $D); W=/root/scratch/rc-$N
   rm -rf $W; git -C /repo worktree add -q --detach $W HEAD 2>/dev/null || { echo "$N: worktree failed"; exit 0; }
